@@ -6,7 +6,9 @@ CFG = dict(
          "next-hop/MED action, non-add-path/add-path branch) run through the real process_nlri_change with a recording sink "
          "and judged by expected_export (written from the statement); plus LLGR stale-transition histories through the real "
          "TableManager, is_as_loop over every segment type/position, rx_update ORIGINATOR_ID/CLUSTER_LIST cases with RIB "
-         "read-back, and sessions whose role/cluster-id accept_connection derives from neighbour configuration. "
+         "read-back, sessions whose role/cluster-id accept_connection derives from neighbour configuration, and batches of "
+         "prefixes (colliding attribute sets / differing next hops, replacements, withdrawals) through the REAL sinks "
+         "GroupedSink::into_messages and PendingTx::drain_messages, the UPDATEs flattened per (prefix, path id). "
          "non-trivial = a suppress rule applied, or the route was sent and its rewrite judged, or an inbound case that loops; "
          "distinct by hash of (cell, vector) / case parameters",
     monitors=["never sent back to the peer it was learned from (echo)",
@@ -22,6 +24,8 @@ CFG = dict(
               "unknown optional transitive => forwarded with Partial; unknown optional non-transitive => dropped",
               "export-policy next-hop action wins over the per-role default",
               "attributes the statement does not mention travel unchanged; no attribute twice; nothing appears from nowhere",
+              "on the wire (GroupedSink / PendingTx): every (prefix, path id) carries exactly the (attributes, next hop) "
+              "process_nlri_change exported for it and expected_export allows; none lost, duplicated or left stale",
               "is_as_loop == path contains local AS or (configured) confederation id",
               "rx_update installs a route iff ORIGINATOR_ID != router-id and CLUSTER_LIST does not hold the session's cluster-id",
               "role / cluster-id / confederation-id of an accepted session == what the neighbour configuration means",
@@ -47,7 +51,18 @@ CFG = dict(
                          "rewrite:Ebgp": 1800, "rewrite:Ibgp": 1000, "rewrite:IbgpRrClient": 1500,
                          "rewrite:ConfedEbgp": 1800, "rewrite:RsClient": 300,
                          "as-loop:looping": 100, "rx-update:originator-loop": 20, "rx-update:cluster-loop": 20,
-                         "llgr-history:receiver-holds-stale-route": 15, "derived:sessions": 5, "derived:cases": 100}),
+                         "llgr-history:receiver-holds-stale-route": 15, "derived:sessions": 5, "derived:cases": 100,
+                         # real sinks end to end (GroupedSink::into_messages / PendingTx::drain_messages)
+                         "wire:grouped:batches": 100, "wire:pending:batches": 100,
+                         "wire:grouped:entries-judged": 1200, "wire:pending:entries-judged": 5000,
+                         "wire:nexthop-judged": 3000, "wire:equal-attrs-different-nexthops": 600,
+                         "wire:equal-nexthop-different-attrs": 600, "wire:attr-set-shared-by-several-prefixes": 700,
+                         "wire:messages-with-several-prefixes": 400, "wire:input-same-arc": 1500,
+                         "wire:input-different-arc": 1500, "wire:pending:replacements": 300,
+                         "wire:pending:withdrawals": 400, "wire:pending:drains": 200,
+                         "wire:add-path": 60, "wire:plain": 60,
+                         "wire:receiver:Ibgp": 30, "wire:receiver:IbgpRrClient": 30, "wire:receiver:RsClient": 30,
+                         "wire:receiver:Ebgp": 15, "wire:receiver:ConfedEbgp": 10}),
     # every shard runs all 360 cells (covering set + random vectors from its own seed)
     quick=[e2("all", "event::verif::c09::run", 1, 40)],
     thorough=[e2("all", "event::verif::c09::run", 8, 200, random_per_cell=4000)],
